@@ -198,4 +198,22 @@ fn io_parse_obj_degenerate_face_kept() {
     }
 }
 
+// @ob props=C14 tier=quick kind=B cfg=geom-std timeout=2400
+// @fn parse_obj ; parse_point ; parse_vector
+// @bound one concrete two-line text with six coordinates in plain, signed, leading-dot and exponent notation
+// @clause the listed vertex positions come out in file order with the written coordinates, plain or exponent notation: "1.5 -22.5e0 1e-3" and ".5 +2 -0.25E1" parse to exactly the f32 values 1.5, -22.5, 0.001 and 0.5, 2, -2.5 (the real str::parse::<f32> is executed)
+#[cfg(not(verif_skip_io_parse_obj_coordinate_notation))]
+#[kani::proof]
+#[kani::unwind(22)]
+fn io_parse_obj_coordinate_notation() {
+    let r = parse_obj(*b"v 1.5 -22.5e0 1e-3\nv .5 +2 -0.25E1\n");
+    kani::cover!(true);
+    assert!(r.is_ok());
+    if let Ok(b) = r {
+        let m = b.build();
+        assert!(m.faces.len() == 0 && m.verts.len() == 2);
+        assert!(vert_is(&m, 0, [1.5, -22.5, 0.001]) && vert_is(&m, 1, [0.5, 2.0, -2.5]));
+    }
+}
+
 include!("gen/dispatch_io.rs");
